@@ -736,13 +736,22 @@ impl<S: Syntax, D> SyntaxNode<S, D> {
     /// Return the leftmost token in the subtree of this node
     #[inline]
     pub fn first_token(&self) -> Option<&SyntaxToken<S, D>> {
-        self.first_child_or_token()?.first_token()
+        // NOTE: children that are nodes may not contain any tokens, so keep looking
+        self.children_with_tokens().find_map(|element| element.first_token())
     }
 
     /// Return the rightmost token in the subtree of this node
     #[inline]
     pub fn last_token(&self) -> Option<&SyntaxToken<S, D>> {
-        self.last_child_or_token()?.last_token()
+        // NOTE: children that are nodes may not contain any tokens, so keep looking
+        let mut current = self.last_child_or_token();
+        while let Some(element) = current {
+            if let Some(token) = element.last_token() {
+                return Some(token);
+            }
+            current = element.prev_sibling_or_token();
+        }
+        None
     }
 
     /// Returns an iterator over all sibling nodes of this node in the given `direction`, i.e. all of
